@@ -73,7 +73,7 @@ def verify_function(repo, qualname, timeout_ms=20000, cfg_symbols=(), want_model
             cx.objs = {k: dict(v) for k, v in st.objs.items()}
             # vacuity guard: the precondition must not be refutable
             E.obligations.append(Obligation(qualname, 'pre_satisfiable', st.facts, z3.BoolVal(False), st.versions,
-                                            kind='cover', expect='not-unsat'))
+                                            kind='cover', expect='not-unsat-strong'))
             args = [bound[p] for p in fi.params]
             kws = {k: bound[k] for k in fi.kwonly if k in bound}
             E.depth = 0
@@ -97,7 +97,10 @@ def verify_function(repo, qualname, timeout_ms=20000, cfg_symbols=(), want_model
         res.time = time.time() - t0
         return res
     except Exception as e:
-        res.error = traceback.format_exc()
+        # an exception inside the engine on (possibly edited) source is a construct the engine cannot handle:
+        # report it as a tool limit (the bounded real-code check stands in), keep the traceback for the evidence
+        res.tool_limit = 'engine exception (unsupported construct?): %s: %s' % (type(e).__name__, str(e)[:200])
+        res.error_trace = traceback.format_exc()
         res.time = time.time() - t0
         return res
     res.inlined = sorted(E.inlined)
@@ -108,7 +111,11 @@ def verify_function(repo, qualname, timeout_ms=20000, cfg_symbols=(), want_model
     for ob in E.obligations:
         if only and not any(o in ob.name for o in only):
             continue
-        if ob.expect == 'not-unsat':
+        if ob.expect == 'not-unsat-strong':
+            # vacuity guard that must also withstand MBQI (a refutation found only with MBQI once hid a vacuous loop proof)
+            discharge(ob, axioms, timeout_ms=8000, want_model=False, retry=True)
+            ob.expect = 'not-unsat'
+        elif ob.expect == 'not-unsat':
             discharge(ob, axioms, timeout_ms=min(timeout_ms, 3000), want_model=False, retry=False)
         else:
             discharge(ob, axioms, timeout_ms=timeout_ms, want_model=want_model)
